@@ -48,6 +48,7 @@ class RunResult:
     states: set[str] = field(default_factory=set)
     sample: dict[str, Any] = field(default_factory=dict)
     known_hits: Counter[str] = field(default_factory=Counter)
+    n_draws: int = 0
 
 
 WorldFn = Callable[[Ctx], None]
@@ -93,6 +94,7 @@ def execute(world: WorldFn, ch: Choices, lens: str, cfg: dict[str, Any], *, watc
     res.digest = ctx.digest()
     res.trace_hash = ctx.trace_hash()
     res.values = ch.values()
+    res.n_draws = len(res.values)
     res.record = list(ch.record)
     res.events = ctx.events
     res.faults = ctx.faults
@@ -105,6 +107,61 @@ def execute(world: WorldFn, ch: Choices, lens: str, cfg: dict[str, Any], *, watc
     res.sample = ctx.sample
     res.known_hits = ctx.known_hits
     return res
+
+
+def execute_isolated(world_name: str, ch: Choices, lens: str, cfg: dict[str, Any]) -> RunResult:
+    """One run in a forked child of this (never-run-anything-itself, for isolated plans) process: whatever
+    module state the run creates -- caches the reset does not know, tables published half-built, memo
+    dicts a changed tree adds -- dies with the child, so every run of an isolated plan starts from the
+    state the worker was forked with, by construction."""
+    import pickle  # noqa: PLC0415
+    import select  # noqa: PLC0415
+
+    from btcsim.seams import state as st  # noqa: PLC0415
+
+    st.discover_memo_dicts()  # imports all of btclib once, here, rather than in every child
+    run_seed(world_name)
+    rfd, wfd = os.pipe()
+    pid = os.fork()
+    if pid == 0:
+        code = 1
+        try:
+            os.close(rfd)
+            res = execute(run_seed(world_name), ch, lens, cfg)
+            if res.status != "violation":
+                # only a violation's choices and log are needed on the other side of the pipe
+                res.values, res.record, res.events = [], [], res.events[:40]
+            with os.fdopen(wfd, "wb") as f:
+                f.write(pickle.dumps(res))
+            code = 0
+        finally:
+            os._exit(code)
+    os.close(wfd)
+    chunks: list[bytes] = []
+    deadline = time.time() + RUN_WALL_S + 30
+    with os.fdopen(rfd, "rb") as f:
+        while True:
+            left = deadline - time.time()
+            if left <= 0 or not select.select([f], [], [], left)[0]:
+                os.kill(pid, signal.SIGKILL)
+                break
+            block = os.read(f.fileno(), 1 << 20)
+            if not block:
+                break
+            chunks.append(block)
+    os.waitpid(pid, 0)
+    data = b"".join(chunks)
+    if not data:
+        return RunResult(status="timeout" if time.time() >= deadline else "error", detail="isolated run died without an answer")
+    res = pickle.loads(data)  # noqa: S301
+    assert isinstance(res, RunResult)
+    return res
+
+
+def run_one(world_name: str, ch: Choices, lens: str, cfg: dict[str, Any]) -> RunResult:
+    if cfg.get("_isolate"):
+        return execute_isolated(world_name, ch, lens, cfg)
+    return execute(run_seed(world_name), ch, lens, cfg)
 
 
 def _restore_all() -> None:
@@ -160,7 +217,7 @@ def run_chunk(
             break  # the batch's budget is spent: the rest of this chunk is simply not run
         seed = derive_seed(base_seed, world_name, idx)
         ch = Choices(seed=seed)
-        r = execute(world, ch, lens, dict(cfg, run_index=idx))
+        r = run_one(world_name, ch, lens, dict(cfg, run_index=idx))
         out.runs += 1
         out.statuses[r.status] += 1
         out.faults.update(r.faults)
@@ -172,7 +229,7 @@ def run_chunk(
             out.nontrivial_hashes.add(r.trace_hash)
         out.states |= r.states
         out.events += r.n_events
-        out.draws += len(r.values)
+        out.draws += r.n_draws
         out.sim_time += r.sim_time
         out.switches += r.switches
         if want_digests:
@@ -193,7 +250,10 @@ def run_chunk(
 
 # -- minimisation ----------------------------------------------------------------
 def _fails_same(world: WorldFn, lens: str, cfg: dict[str, Any], values: list[int], sig: tuple[str, str, str]) -> RunResult | None:
-    r = execute(world, Choices(values=values), lens, cfg)
+    if cfg.get("_isolate"):
+        r = execute_isolated(cfg["_world"], Choices(values=values), lens, cfg)
+    else:
+        r = execute(world, Choices(values=values), lens, cfg)
     if r.status == "violation" and r.signature == sig:
         return r
     return None
@@ -439,7 +499,10 @@ def run_check(
     ctxmp = get_context("fork")
     t_end = t_start + budget_s
     # time-sliced: each plan gets workers in proportion to its share
-    with ProcessPoolExecutor(max_workers=workers, mp_context=ctxmp) as ex:
+    # isolated plans get a pool of their own: its workers never run a world themselves (each run is a forked
+    # child, see execute_isolated), so what a child starts from is what this process -- which runs no world
+    # either -- was when the worker was forked
+    with ProcessPoolExecutor(max_workers=workers, mp_context=ctxmp) as ex, ProcessPoolExecutor(max_workers=workers, mp_context=ctxmp) as ex_iso:
         pending: dict[Any, Plan] = {}
         spent: dict[str, float] = {(p.label or p.world): 0.0 for p in plans}
 
@@ -462,7 +525,8 @@ def run_check(
             if best is None:
                 return False
             key = best.label or best.world
-            fut = ex.submit(run_chunk, best.world, prop, best.cfg, base_seed, next_idx[key], best.chunk, False, t_end)
+            pool = ex_iso if best.cfg.get("_isolate") else ex
+            fut = pool.submit(run_chunk, best.world, prop, best.cfg, base_seed, next_idx[key], best.chunk, False, t_end)
             next_idx[key] += best.chunk
             pending[fut] = best
             return True
@@ -525,7 +589,7 @@ def run_check(
             continue
         reported.add(sig)  # type: ignore[arg-type]
         world = run_seed(plan.world)
-        cfg = dict(plan.cfg, run_index=v["idx"])
+        cfg = dict(plan.cfg, run_index=v["idx"], _world=plan.world)
         try:
             # the first signature gets the full budget, later ones less: the verdict is already known
             k = len(reported) - 1
